@@ -182,6 +182,8 @@ fn main() {
         // equal operands: the value is 0 only if the operand HAS a value (u is undefined in some initial states, d may be 0)
         ("v=u^u", Operation::assign(scalar("v", 8), Expression::xor(sc("u", 8), sc("u", 8)).unwrap())),
         ("v=(10/d)^(10/d)", Operation::assign(scalar("v", 8), Expression::xor(Expression::divu(k8(10), sc("d", 8)).unwrap(), Expression::divu(k8(10), sc("d", 8)).unwrap()).unwrap())),
+        ("v=0&u", Operation::assign(scalar("v", 8), Expression::and(k8(0), sc("u", 8)).unwrap())),
+        ("v=0&(10/d)", Operation::assign(scalar("v", 8), Expression::and(k8(0), Expression::divu(k8(10), sc("d", 8)).unwrap()).unwrap())),
         ("v=u&0", Operation::assign(scalar("v", 8), Expression::and(sc("u", 8), k8(0)).unwrap())),
         ("v=u*0", Operation::assign(scalar("v", 8), Expression::mul(sc("u", 8), k8(0)).unwrap())),
         ("nop", Operation::nop()),
